@@ -67,7 +67,7 @@ var c11Formats = []c11Fmt{
 	{"json", []string{"a", "\"", ":", ",", "{", "}", "[", "]", "1", "-", ".", "e", "\\", "t", "n", " "},
 		[]string{`{"a": [1, 2.5e3, true, null, "x\u00e9\n"], "b": {"c": {}}}`, `[[], {}, -0, 1E-2, "\ud83d\ude00"]`, `"s"`, `{"a": 1}{"b": 2}`}},
 	{"xml", []string{"<", ">", "/", "a", " ", "=", "\"", "&", ";", "!", "-", "?", "[", "]"},
-		[]string{`<?xml version="1.0"?><r a="1"><c>t</c><c/><!-- k --><d><![CDATA[x]]></d></r>`, `<a xmlns:n="u"><n:b n:c="d">&amp;&lt;</n:b></a>`, `<!DOCTYPE r [<!ENTITY e "v">]><r>&e;</r>`, `<a>1<b>2</b>3</a>`}},
+		[]string{`<?xml version="1.0"?><r a="1"><c>t</c><c/><!-- k --><d><![CDATA[x]]></d></r>`, `<a xmlns:n="u"><n:b n:c="d">&amp;&lt;</n:b></a>`, `<!DOCTYPE r [<!ENTITY e "v">]><r>&e;</r>`, `<a>1<b>2</b>3</a>`, `<a></a></b><?x y?>`, `<a></a></b><!DOCTYPE z>`, `<a></a></b><!-- c -->t`}},
 	{"toml", []string{"a", "=", "1", "\"", "[", "]", ".", "\n", "{", "}", ",", "#", " ", "'", "-"},
 		[]string{"a = 1\nb = \"s\"\n[t]\nc = [1, 2]\nd = {e = 1.5}\n[[arr]]\nx = 1\n[[arr]]\nx = 2\n", "d = 1979-05-27T07:32:00Z\nf = inf\nh = 0x1F\ns = '''m\nl'''\n", "a.b.c = true\n\"q k\" = 1\n"}},
 	{"csv", []string{"a", ",", "\"", "\n", "1", " ", "\r", ";"},
